@@ -322,6 +322,13 @@ func (rp *HTTPReverseProxy) ServeHTTP(rw http.ResponseWriter, req *http.Request)
 	domain, _ := httppkg.CanonicalHost(req.Host)
 	location := req.URL.Path
 	user, passwd, _ := req.BasicAuth()
+	// A proxy request (absolute-form target) is routed by the user of its Proxy-Authorization header,
+	// see injectRequestInfoToCtx: check the credentials of that header against that same route.
+	if req.URL.Host != "" {
+		if proxyUser, proxyPasswd, ok := parseBasicAuth(req.Header.Get("Proxy-Authorization")); ok && proxyUser != "" {
+			user, passwd = proxyUser, proxyPasswd
+		}
+	}
 	if !rp.CheckAuth(domain, location, user, user, passwd) {
 		rw.Header().Set("WWW-Authenticate", `Basic realm="Restricted"`)
 		http.Error(rw, http.StatusText(http.StatusUnauthorized), http.StatusUnauthorized)
